@@ -260,7 +260,13 @@ META = {
 
 
 def jobs(tier):
-    return cmp_jobs(tier) + reg_jobs(tier) + sub_jobs(tier)
+    from vf.l2 import l2_job
+    js = []
+    for route in ((0, 1, 3) if tier == "quick" else (0, 1, 2, 3, 4)):
+        js.append(l2_job("C09.stopdrop.r%d" % route, "l2/c09_stopdrop.c", defines={"ROUTE": route},
+                         symbolic=["errno left by callbacks (int)", "quit code (uint8)"],
+                         bounds="whole core: fd + timer + signal source + subscription, route %d into STOPPED" % route, unwind=13))
+    return cmp_jobs(tier) + reg_jobs(tier) + sub_jobs(tier) + js
 
 
 MANIFEST = {
